@@ -337,6 +337,70 @@ def _binding_kinds_rule(ctx, program):
                   key=f"binding construct {kind}", node=fn, rel="eval.py")
 
 
+INNER_DEF_PROBES = {
+    "function body": "def g():\n    pass",
+    "class in the body": "class K:\n    pass",
+    "async def": "async def g():\n    pass",
+    "if branch": "if a:\n    def g():\n        pass",
+    "else branch": "if a:\n    pass\nelse:\n    def g():\n        pass",
+    "for body": "for i in a:\n    def g():\n        pass",
+    "for else": "for i in a:\n    pass\nelse:\n    def g():\n        pass",
+    "while body": "while a:\n    def g():\n        pass",
+    "try body": "try:\n    def g():\n        pass\nexcept E:\n    pass",
+    "except handler": "try:\n    pass\nexcept E:\n    def g():\n        pass",
+    "try else": "try:\n    pass\nexcept E:\n    pass\nelse:\n    def g():\n        pass",
+    "finally": "try:\n    pass\nfinally:\n    def g():\n        pass",
+    "with body": "with a:\n    def g():\n        pass",
+    "match case": "match a:\n    case 1:\n        def g():\n            pass",
+    "handler nested in a loop": "for i in a:\n    try:\n        pass\n    except E:\n        class K:\n            pass",
+    "no inner definition": "try:\n    x = a\nexcept E:\n    y = a",
+}
+
+
+def _inner_def_rule(ctx, program):
+    """check_for_closure decides whether a function's locals need closure cells; it must find a nested def/class wherever Python allows one."""
+    ctx.rule("R03.12", "the 'has an inner function or class' analysis finds a nested definition in every statement position (agrees with the host's symtable)", floor=14)
+    uid = "eval.py::EvalFunc.check_for_closure"
+    fn = program.func(uid)
+    for label, probe in INNER_DEF_PROBES.items():
+        src = "def f():\n" + "\n".join("    " + l for l in probe.splitlines()) + "\n"
+        st = symtable.symtable(src, "<probe>", "exec").get_children()[0]
+        want = len(st.get_children()) > 0
+        stmt = ast.parse(src).body[0].body[0]
+        pol = FlowPolicy(program, may_raise_all=False, cancel=False, inline={"EvalFunc.check_for_closure", "self.check_for_closure"})
+        pol.inline_depth = 12
+        out = run_flow(program, uid, pol, args={"self": ObjV("self", "EvalFunc"), "arg": to_nodev(stmt)})
+        got = sorted({repr(c.env.get("$ret")) for k, c, d in exits(out) if k == "return"} | {d for k, c, d in exits(out) if k != "return"})
+        ctx.check(got == [repr(Const(want))], "R03.12", uid, f"nested definition: {label}",
+                  msg=f"check_for_closure on a function whose body is `{probe.splitlines()[0]} ...` ({label}) returns {got}, Python's symtable says an inner scope {'exists' if want else 'does not exist'}: "
+                  f"the enclosing function's locals get no closure cells, the inner function cannot see them (NameError / reads a same-named global)", key=f"inner def {label}", node=fn, rel="eval.py")
+
+
+def _param_cells_rule(ctx, program):
+    """Every kind of parameter is a local of the function: with an inner function present each gets a closure cell."""
+    ctx.rule("R03.13", "positional-only, ordinary, *args, keyword-only and **kwargs parameters all become closure cells when the function has an inner scope", floor=3)
+    uid = "eval.py::EvalFunc.resolve_nonlocals"
+    for sig in ("p, /, a, *va, k, **kw", "p, q, /", "a, b=1, *, k=2"):
+        src = f"def f({sig}):\n    def g():\n        return 0\n    return g\n"
+        st = symtable.symtable(src, "<probe>", "exec").get_children()[0]
+        want = sorted(n for n in st.get_parameters())
+        fd = to_nodev(ast.parse(src).body[0])
+        pol = FlowPolicy(program, may_raise_all=False, cancel=False, inline={"EvalFunc.get_positional_args", "self.get_positional_args"},
+                         summaries={"self.check_for_closure": lambda i, n, a, k, c, o: [(c, Const(True))], "ast_ctx.get_names": lambda i, n, a, k, c, o: [(c, ListV((), "set"))]})
+        pol.loop_unroll = 8
+        heap = {"self.func_def": fd, "self.has_closure": Const(False), "self.local_sym_table": DictV([]), "self.local_names": NONE,
+                "ast_ctx.sym_table_stack": ListV((), "list"), "ast_ctx.sym_table": DictV([])}
+        out = run_flow(program, uid, pol, args={"self": ObjV("self", "EvalFunc"), "ast_ctx": ObjV("ast_ctx", "AstEval")}, heap=heap)
+        got = None
+        ex = exits(out)
+        for k, c, d in ex:
+            t = c.heap.get("self.local_sym_table")
+            got = sorted(x.v for x, _ in t.items if isinstance(x, Const)) if isinstance(t, DictV) and k == "return" else d
+        ctx.check(bool(ex) and got == want, "R03.13", uid, f"parameters of def f({sig})", msg=f"resolve_nonlocals for `def f({sig})` with an inner function creates closure cells for {got}; "
+                  f"Python's symtable lists the parameters {want} as locals: an inner function reading a missing one gets NameError or a same-named global",
+                  key=f"param cells {sig}", node=program.func(uid), rel="eval.py")
+
+
 # ----------------------------------------------------------------------------------------------------
 CELL_PROBES = [
     ("x = a0", "exec"), ("x, y = (a0, a1)", "exec"), ("x += a0", "exec"), ("(x := a0)", "eval"),
@@ -524,6 +588,8 @@ def run(ctx):
     _binding_rule(ctx, program)
     _defn_order_rule(ctx, program)
     _binding_kinds_rule(ctx, program)
+    _inner_def_rule(ctx, program)
+    _param_cells_rule(ctx, program)
     _scope_rules(ctx, program)
     _cell_rule(ctx, program)
     _scope_order_rule(ctx, program)
